@@ -1,4 +1,4 @@
-import Ypv.Lemmas.WriteSim
+import Ypv.Lemmas.PathSim
 import Ypv.Model.Render
 /-!
 # C08 — path text and parsed segments round-trip in both notations
@@ -140,6 +140,98 @@ theorem eq_written (f1 f2 : Bool) (s1 s2 : List Seg)
   · rintro ⟨s, ha, hb⟩
     cases ha; cases hb; rfl
   · rintro rfl; exact ⟨s1, rfl, rfl⟩
+
+/-- **render_fixed_point (partial only by finding C08-6).**  Take a well-formed list `segs` (all
+kinds), write it in notation `f`, let `u` be what `YAMLPath(text).unescaped` holds
+(`parse_write_unescaped_partial`), and let `S = render f' u` be the library's canonical string in
+notation `f'` (`__str__`, or the string after `separator = …`).  Then
+* `S` re-parses (`escaped`) to exactly `segs`, in either notation `f'`;
+* `S` is a fixed point: rendering the unescaped segments of `S` in the same notation gives `S` again.
+The only restriction is the one of `parse_write_partial`: a forward-slash *text* (the written one or the
+rendered one) must not be in the class of finding C08-6. -/
+theorem render_fixed_point_partial (f f' : Bool) (segs : List Seg) (hwf : wfSegs segs = true)
+    (hx : (f = true ∨ f' = true) → fslashExpressible segs = true) :
+    ∃ u, parseWith f false (write f segs) = .ok u ∧
+      parseWith f' true (render f' u) = .ok segs ∧
+      ∃ u', parseWith f' false (render f' u) = .ok u' ∧ render f' u' = render f' u := by
+  refine ⟨segs.map (keepEsc (Sim.sepOf f)),
+    parse_write_unescaped_partial f segs hwf (fun h => hx (Or.inl h)), ?_⟩
+  obtain ⟨h1, _, u', h2, h3, _⟩ := Sim.render_roundtrip f f' segs hwf (fun h => hx (Or.inr h))
+  exact ⟨h1, u', h2, h3⟩
+
+theorem inferSep_of_head {t : Str} (f : Bool) (hne : t ≠ [])
+    (h : if f then t.head? = some '/' else t.head? ≠ some '/') :
+    inferSep t = (if f then .fslash else .dot) ∧ (normOriginal t = t → inferFslash t = f) := by
+  cases t with
+  | nil => exact absurd rfl hne
+  | cons c r =>
+    cases f with
+    | true =>
+      have hc : c = '/' := by simpa using h
+      subst hc
+      exact ⟨by simp [inferSep], fun hn => by simp [inferFslash, hn]⟩
+    | false =>
+      have hc : c ≠ '/' := by simpa using h
+      exact ⟨by simp [inferSep, hc], fun hn => by simp [inferFslash, hn, hc]⟩
+
+/-- `str()` of a freshly built path object whose text `t` (not blank, not empty) has the unescaped
+segments `u ≠ []`: the rendering of `u` in the notation inferred from `t` -/
+theorem str_new (f : Bool) (t : Str) (u : List Seg) (hn : normOriginal t = t)
+    (hs : inferSep t = if f then .fslash else .dot) (hu : parseWith f false t = .ok u) (hune : u ≠ []) :
+    ∃ p, (PathObj.new t).str = .ok (render f u, p) := by
+  cases f <;>
+    simp [PathObj.str, PathObj.new, PathObj.setOriginal, PathObj.unescaped, PathObj.parseObj,
+      PathObj.getSep, hn, hs, SepOpt.isFslash] at hu ⊢ <;>
+    simp [hu, hune]
+
+/-- the same through the object model: `str(YAMLPath(text))` with the separator inferred from the
+text re-parses (separator inferred again) to the written segments and is a fixed point of
+`str ∘ YAMLPath`.  In dot notation neither the text nor its rendering may start with `/` (such texts
+are forward-slash paths by the notation's own definition). -/
+theorem str_fixed_point_partial (f : Bool) (segs : List Seg) (hwf : wfSegs segs = true)
+    (hne : segs ≠ [])
+    (hx : if f then fslashExpressible segs = true else
+      dotExpressible segs = true ∧
+        (render false (segs.map (keepEsc '.'))).head? ≠ some '/') :
+    ∃ S p, (PathObj.new (write f segs)).str = .ok (S, p) ∧ parse true S = .ok segs ∧
+      ∃ p', (PathObj.new S).str = .ok (S, p') := by
+  have hxf : f = true → fslashExpressible segs = true := by
+    intro h; subst h; exact hx
+  have hu : parseWith f false (write f segs) = .ok (segs.map (keepEsc (Sim.sepOf f))) :=
+    parse_write_unescaped_partial f segs hwf hxf
+  obtain ⟨hp, hSn, u', hu', hfix, hlen⟩ := Sim.render_roundtrip f f segs hwf hxf
+  have hune : segs.map (keepEsc (Sim.sepOf f)) ≠ [] := by simpa using hne
+  have hu'ne : u' ≠ [] := by
+    intro h0; rw [h0] at hlen
+    exact hne (List.length_eq_zero_iff.mp hlen.symm)
+  -- neither text is empty
+  have hwne : write f segs ≠ [] := by
+    intro h0
+    have := parse_write_partial f segs hwf hxf
+    rw [h0, Sim.parseWith_nil] at this
+    exact hne (Except.ok.inj this).symm
+  have hSne : render f (segs.map (keepEsc (Sim.sepOf f))) ≠ [] := by
+    intro h0
+    rw [h0, Sim.parseWith_nil] at hp
+    exact hne (Except.ok.inj hp).symm
+  -- the separators inferred from the written and from the rendered text
+  have hhead1 : if f then (write f segs).head? = some '/' else (write f segs).head? ≠ some '/' := by
+    cases f
+    · simpa [dotExpressible] using hx.1
+    · simp [write]
+  have hhead2 : if f then (render f (segs.map (keepEsc (Sim.sepOf f)))).head? = some '/'
+      else (render f (segs.map (keepEsc (Sim.sepOf f)))).head? ≠ some '/' := by
+    cases f
+    · simpa [Sim.sepOf] using hx.2
+    · simp [render]
+  obtain ⟨hs1, _⟩ := inferSep_of_head f hwne hhead1
+  obtain ⟨hs2, hi2⟩ := inferSep_of_head f hSne hhead2
+  obtain ⟨p, hstr1⟩ := str_new f _ _ (Sim.write_nonblank f segs hwf) hs1 hu hune
+  obtain ⟨p', hstr2⟩ := str_new f _ _ hSn hs2 hu' hu'ne
+  refine ⟨_, p, hstr1, ?_, p', ?_⟩
+  · unfold parse
+    rw [hi2 hSn]; exact hp
+  · rw [hfix] at hstr2; exact hstr2
 
 theorem endsWith_append (a b : Str) : endsWith (a ++ b) b = true := by
   simp [endsWith]
